@@ -47,7 +47,7 @@ UNIT = 250  # mutants per work item
 QUICK_MAX_LINES = 15
 QUICK_BUDGET = 200000  # estimated single mutants in the quick tier (selection bound, not a time cap)
 THOROUGH_MAX_LINES = 80
-THOROUGH_BUDGET = 1500000
+THOROUGH_BUDGET = 700000
 PAIR_SEEDS = 20
 PAIR_ALPHABET = ["new", "at", "from", "in", "with", "not", "x", "(", ")", ",", ":", "=", "\n", "\n+"]
 PAIR_BUDGET = 250000
